@@ -560,9 +560,12 @@ package ro
 
 //@ operator ThrottleWhen
 //@   props C05 C16 C04 C08
-//@   on next@tick(ctx, value) : emits ; post send' == 1
-//@   on next@source(ctx, value) when send == 1 : emits Next(ctx, value) ; post send' == 0
-//@   on next@source(ctx, value) when send != 1 : emits ; post send' == send
+//@   note the gate starts closed (pinned by TestOperatorTransformationThrottleWhen: values before the first tick are dropped), a tick opens it, the next source value passes and closes it again
+//@   ghost open bool = false
+//@   inv (send == 1) == open && (send == 0 || send == 1)
+//@   on next@tick(ctx, value) : emits ; open' = true ; post send' == 1
+//@   on next@source(ctx, value) when open : emits Next(ctx, value) ; open' = false ; post send' == 0
+//@   on next@source(ctx, value) when !open : emits ; post send' == send
 
 //@ operator BufferWhen
 //@   props C05 C16 C04 C08
